@@ -3,7 +3,7 @@ use bytesstr::BytesStr;
 use internal::{ws, IResult};
 use nom::branch::alt;
 use nom::bytes::complete::{tag, take_while1};
-use nom::character::complete::{char, digit1};
+use nom::character::complete::{char, digit1, satisfy};
 use nom::combinator::{map, map_res, not, opt, peek};
 use nom::error::context;
 use nom::multi::{separated_list0, separated_list1};
@@ -198,22 +198,29 @@ impl SrtpSessionParam {
             context(
                 "parsing srtp-session-param",
                 alt((
-                    map(preceded(tag("KDR="), number), Self::Kdr),
-                    map(tag("UNENCRYPTED_SRTP"), |_| Self::UnencryptedSrtp),
-                    map(tag("UNENCRYPTED_SRTCP"), |_| Self::UnencryptedSrtcp),
-                    map(tag("UNAUTHENTICATED_SRTP"), |_| Self::UnauthenticatedSrtp),
-                    preceded(
-                        tag("FEC_ORDER="),
+                    // A known parameter must span the whole (blank separated) parameter,
+                    // otherwise it is an extension which merely starts like a known one
+                    terminated(
                         alt((
-                            map(tag("FEC_SRTP"), |_| Self::FecOrder(SrtpFecOrder::FecSrtp)),
-                            map(tag("SRTP_FEC"), |_| Self::FecOrder(SrtpFecOrder::SrtpFec)),
+                            map(preceded(tag("KDR="), number), Self::Kdr),
+                            map(tag("UNENCRYPTED_SRTP"), |_| Self::UnencryptedSrtp),
+                            map(tag("UNENCRYPTED_SRTCP"), |_| Self::UnencryptedSrtcp),
+                            map(tag("UNAUTHENTICATED_SRTP"), |_| Self::UnauthenticatedSrtp),
+                            preceded(
+                                tag("FEC_ORDER="),
+                                alt((
+                                    map(tag("FEC_SRTP"), |_| Self::FecOrder(SrtpFecOrder::FecSrtp)),
+                                    map(tag("SRTP_FEC"), |_| Self::FecOrder(SrtpFecOrder::SrtpFec)),
+                                )),
+                            ),
+                            map(
+                                preceded(tag("FEC_KEY="), parse_srtp_key_params(src)),
+                                Self::FecKey,
+                            ),
+                            map(preceded(tag("WSH="), number), Self::WindowSizeHint),
                         )),
+                        peek(not(satisfy(is_visible_char))),
                     ),
-                    map(
-                        preceded(tag("FEC_KEY="), parse_srtp_key_params(src)),
-                        Self::FecKey,
-                    ),
-                    map(preceded(tag("WSH="), number), Self::WindowSizeHint),
                     map(
                         preceded(peek(not(char('-'))), take_while1(is_visible_char)),
                         |ext| Self::Ext(BytesStr::from_parse(src, ext)),
